@@ -19,18 +19,18 @@ def model (line : String) : String :=
   match splitWs line with
   | ["tx", a, s] =>
     match parseAction a, canonNat s (2 ^ 63) with
-    | some a, some s =>
-      let head := s!"expiry={expiry a s} margin={compiledMargin a} bcast={compiledBcastSeconds a} delay={delaySeconds a}"
-      if guardFails a s then head ++ " guard-fails"
-      else head ++ s!" signStart={signStart a s} signEnd={signEnd a s}"
+    | some a, some cb =>
+      let head := s!"start={start cb} expiry={expiry a cb} margin={compiledMargin a} bcast={compiledBcastSeconds a} delay={delaySeconds a}"
+      if guardFails a cb then head ++ " guard-fails"
+      else head ++ s!" signStart={signStart a cb} signEnd={signEnd a cb}"
     | _, _ => "bad-op"
   | ["hb", s, act, inact, rounds] =>
     match canonNat s (2 ^ 63), act.toNat?, inact.toNat?, rounds.toNat? with
-    | some s, some act, some inact, some rounds =>
+    | some cb, some act, some inact, some rounds =>
       if act > 200 || inact > 200 || rounds < 1 || rounds > 6 then "bad-op" else
       let o := hbRun act inact rounds
-      let deadlines := List.replicate o.signs (signEnd .heartbeat s) ++ List.replicate o.claims (claimEnd s)
-      s!"expiry={expiry .heartbeat s} signStarts={showList (List.replicate o.signs (signStart .heartbeat s))} claims={o.claims} errors={o.errors} deadlines={showList deadlines}"
+      let deadlines := List.replicate o.signs (signEnd .heartbeat cb) ++ List.replicate o.claims (claimEnd cb)
+      s!"start={start cb} expiry={expiry .heartbeat cb} signStarts={showList (List.replicate o.signs (signStart .heartbeat cb))} claims={o.claims} errors={o.errors} deadlines={showList deadlines}"
     | _, _, _, _ => "bad-op"
   | _ => "bad-op"
 
@@ -50,20 +50,22 @@ def monitor (op obs : String) : String :=
   | ["tx", a, s] =>
     match parseAction a, canonNat s (2 ^ 63) with
     | some a, some s =>
-      match fieldNat obs "expiry", fieldNat obs "signStart", fieldNat obs "signEnd",
+      match fieldNat obs "start", fieldNat obs "expiry", fieldNat obs "signStart", fieldNat obs "signEnd",
             fieldNat obs "margin", fieldNat obs "bcast", fieldNat obs "delay" with
-      | some e, some ss, some se, some m, some b, some d =>
-        if holdsTx a s e ss se m b d then "ok" else "FAIL deadline-not-nested-in-validity-window"
-      | _, _, _, _, _, _ => "FAIL no-signing-deadlines-observed"
+      | some st, some e, some ss, some se, some m, some b, some d =>
+        -- the action starts at the end of its coordination window; all deadlines against that start
+        if decide (s < st) && holdsTx a st e ss se m b d then "ok" else "FAIL deadline-not-nested-in-validity-window"
+      | _, _, _, _, _, _, _ => "FAIL no-signing-deadlines-observed"
     | _, _ => badOr obs
   | ["hb", s, act, inact, rounds] =>
     match canonNat s (2 ^ 63), act.toNat?, inact.toNat?, rounds.toNat? with
     | some s, some act, some inact, some rounds =>
       if act > 200 || inact > 200 || rounds < 1 || rounds > 6 then badOr obs else
-      match fieldNat obs "expiry", (field obs "signStarts").bind parseNats, (field obs "deadlines").bind parseNats with
-      | some e, some ss, some ds =>
-        if holdsHb s e ss ds then "ok" else "FAIL deadline-not-nested-in-validity-window"
-      | _, _, _ => "FAIL unparsable-observation"
+      match fieldNat obs "start", fieldNat obs "expiry", (field obs "signStarts").bind parseNats,
+            (field obs "deadlines").bind parseNats with
+      | some st, some e, some ss, some ds =>
+        if decide (s < st) && holdsHb st e ss ds then "ok" else "FAIL deadline-not-nested-in-validity-window"
+      | _, _, _, _ => "FAIL unparsable-observation"
     | _, _, _, _ => badOr obs
   | _ => badOr obs
 
